@@ -520,10 +520,12 @@ class IdentityMatrix(PositiveDefiniteMatrix, ImplicitArrayMatrix):
         return ScaledIdentityMatrix(scalar, self.shape[0])
 
     def _left_matrix_multiply(self, other: NDArray) -> NDArray:
-        return other
+        # Return copy rather than argument itself so that, as for all other matrix
+        # classes, the product does not share memory with the array multiplied
+        return other.copy()
 
     def _right_matrix_multiply(self, other: NDArray) -> NDArray:
-        return other
+        return other.copy()
 
     @property
     def eigval(self) -> NDArray:
